@@ -25,13 +25,14 @@ def main():
     ap.add_argument("--all", action="store_true")
     ap.add_argument("--only", nargs="*")
     ap.add_argument("--tier", default="quick")
+    ap.add_argument("--out", default="RESULTS", help="basename of the result files under seeded/")
     a = ap.parse_args()
     if sh(f"git -C {REPO} status --porcelain").stdout.strip():
         print("/repo is not clean; refusing", file=sys.stderr)
         sys.exit(2)
     man = json.load(open(os.path.join(HERE, "MANIFEST.json")))
     all_checks = [c["property_id"] for c in man["checks"]]
-    res_path = os.path.join(HERE, "seeded", "RESULTS.json")
+    res_path = os.path.join(HERE, "seeded", a.out + ".json")
     results = json.load(open(res_path)) if os.path.exists(res_path) else {}
     for sid in sorted(os.listdir(os.path.join(HERE, "seeded"))):
         d = os.path.join(HERE, "seeded", sid)
@@ -74,7 +75,7 @@ def main():
         meta = json.load(open(os.path.join(HERE, "seeded", sid, "meta.json")))
         det = [p for p, v in row.items() if v["exit"] == 1 and v["violations"] > 0]
         lines.append(f"| {sid} | {meta['property']} | {', '.join(det) or '**MISSED**'} | " + " ".join(f"{p}:{v['exit']}" for p, v in sorted(row.items())) + " |")
-    open(os.path.join(HERE, "seeded", "RESULTS.md"), "w").write("\n".join(lines) + "\n")
+    open(os.path.join(HERE, "seeded", a.out + ".md"), "w").write("\n".join(lines) + "\n")
 
 
 if __name__ == "__main__":
